@@ -11,6 +11,7 @@ sys.path.insert(0, HERE)
 import common  # noqa: E402
 
 MODULES = {
+    "BCASE": "props_bcase",  # layer-B case family correspondence (development aid)
     "BIND": "props_bind",  # layer-B indent / vertical spacing / post-phase-1 correspondence (development aid)
     "BWS": "props_bws",  # layer-B whitespace family correspondence (development aid, not a property)
     "C01": "props_trace",
